@@ -144,11 +144,17 @@ func (w *World) ApplyModifierTwice(c *ContactState, mj gen.J, sa *SA) *ModCheck 
 		json.Unmarshal(b, &j)
 		return j
 	}
+	// both applications happen at the same simulated instant (date-only values are completed
+	// with the time of day of "now", so a moving clock alone would make them differ)
+	clock := *w.Seams.Clock
 	mc.Panic = guarded(func() {
 		mc.Modified = modifiers.Apply(w.Eng, env, sa, contact, mod, collect(&mc.Events))
 		mc.After = snap()
+		end := *w.Seams.Clock
+		*w.Seams.Clock = clock
 		mc.Modified2 = modifiers.Apply(w.Eng, env, sa, contact, mod, collect(&mc.Events2))
 		mc.After2 = snap()
+		*w.Seams.Clock = end
 	})
 	return mc
 }
